@@ -104,27 +104,27 @@ Inductive bst : Type := BNormal | BCtl | BSlash | BHex (v : N) (n : nat).
 Definition stored_escaped (v : N) : bool := is_control v && negb (v =? 9) && negb (v =? 0).
 Fixpoint bad_escape (l : list N) (st : bst) : bool :=
   match l, st with
-  | [], BHex v _ => (v =? 32) || negb (valid_char v)
+  | [], BHex v _ => negb (valid_char v)
   | [], _ => false
   | c :: r, BNormal => if c =? 92 then bad_escape r BSlash else bad_escape r BNormal
   | c :: r, BCtl => (c =? 32) || (if c =? 92 then bad_escape r BSlash else bad_escape r BNormal)
   | c :: r, BSlash =>
       match hexv c with
       | Some d => bad_escape r (BHex d 1)
-      | None => (c =? 32) || (c =? 10) || (c =? 9) || bad_escape r BNormal
+      | None => (c =? 10) || (c =? 9) || bad_escape r BNormal
       end
   | c :: r, BHex v n =>
       match hexv c with
       | Some d => if Nat.ltb n 6 then bad_escape r (BHex (v * 16 + d) (S n))
-                  else (v =? 32) || negb (valid_char v) || bad_escape r BNormal
-      | None => (v =? 32) || negb (valid_char v) || ((c =? 9) || (c =? 10) || (c =? 13) || (c =? 12))
+                  else negb (valid_char v) || bad_escape r BNormal
+      | None => negb (valid_char v) || ((c =? 9) || (c =? 10) || (c =? 13) || (c =? 12))
                 || (if c =? 92 then bad_escape r BSlash
                     else if (c =? 32) && stored_escaped v then bad_escape r BCtl else bad_escape r BNormal)
       end
   end.
 
 (* K2: the printed token denotes another string: a private-use character followed by a hex digit or
-   white space (written as a bare hex escape), an escaped space, an escaped tab/newline, an escape
+   white space (written as a bare hex escape), an escaped tab/newline, an escape
    of a surrogate / out-of-range code point, a hex escape terminated by tab/newline, or the escape of a
    control character followed by a space character (cleanup_escape_ws drops the terminator) *)
 Definition known_emit (c : case) : bool :=
